@@ -24,7 +24,7 @@ VARIANTS = {
     "hash3prior": ({"PYTHONHASHSEED": "77"}, ["--prior", "5"]),
 }
 
-LIB = ["cms_str", "sketches_str", "poisson_queue", "fam_c19_mq", "fam_c19_topic", "cache_policies_str", "seeded_boundary_seeds"]
+LIB = ["cms_str", "sketches_str", "poisson_queue", "fam_c19_mq", "fam_c19_topic", "cache_policies_str", "seeded_boundary_seeds", "two_sources_tie"]
 CORE_FILES = [
     "tests/integration/consensus/test_consensus_raft.py",
     "tests/integration/consensus/test_consensus_paxos.py",
@@ -57,7 +57,9 @@ def corpus(tier, rng):
             if not cnt:
                 continue
             groups = max(1, min(8, cnt // 10))
-            ks = range(groups) if tier != "quick" else [rng.randrange(groups)]
+            # quick: every group of the service-layer library (forwarding wrappers that stack completion
+            # hooks, retries, pools), one random group of the two others; thorough: everything
+            ks = range(groups) if (tier != "quick" or prefix == "svc_") else [rng.randrange(groups)]
             sc += [f"libgroup:{prefix}:{k}:{groups}" for k in ks]
     except Exception:
         pass
